@@ -312,7 +312,7 @@ def run_case(case: dict) -> dict:
     part = case["part"]
     counters: dict[str, int] = {f"part:{part}": 1}
     if part in ("A", "lib"):
-        g = gen(rng, conditionals=rng.random() < 0.5, module_state=0.25) if part == "A" else lib_model(rng)
+        g = gen(rng, conditionals=rng.random() < 0.5, module_state=0.25, trace_coefficient=0.3) if part == "A" else lib_model(rng)
         if "module_state" in g["features"]:
             # one conversion was made in this process before the module-level values the rate laws read are re-bound
             with module_state_rebound(rng, lambda: to_symbolic_model(rm.build(g["spec"]))):
